@@ -6,7 +6,7 @@ patch="$(readlink -f "$1")"; shift
 tag="mt_$$"
 wt="/tmp/$tag"; priv="/verif/.scratch/$tag"
 git -C /repo worktree add -q --detach "$wt" HEAD || exit 2
-cleanup() { git -C /repo worktree remove --force "$wt" 2>/dev/null; rm -rf "$priv"; }
+cleanup() { [ -n "$KEEP_OUT" ] && cp -r "$priv/out" "/verif/.scratch/keep_out" 2>/dev/null; git -C /repo worktree remove --force "$wt" 2>/dev/null; rm -rf "$priv"; }
 trap cleanup EXIT INT TERM
 ( cd "$wt" && git apply "$patch" ) || { echo "patch does not apply"; exit 2; }
 mkdir -p "$priv/out"
